@@ -156,6 +156,9 @@ func c02R1(a *A, r *Roles) {
 	}
 	// closure values used only as direct callees
 	for name, mc := range map[string]*ssa.MakeClosure{"commit": r.CommitMC, "begin": r.BeginMC} {
+		if mc == nil {
+			continue // no begin closure: BEGIN is handled in its arm (R3)
+		}
 		k := 0
 		for _, ref := range *mc.Referrers() {
 			k++
@@ -258,15 +261,34 @@ func c02R3(a *A, r *Roles, ar *Arms) {
 		n[prefix+lab]++
 		return fmt.Sprintf("%s@parser[arm=%s#%d]", prefix, lab, n[prefix+lab])
 	}
-	// begin calls
-	for _, ref := range *r.BeginMC.Referrers() {
-		c, ok := ref.(*ssa.Call)
-		if !ok {
-			continue
+	// begin calls (or, without a begin closure, the places where the parser itself marks a transaction open)
+	beginBlocks := map[*ssa.BasicBlock]bool{}
+	installBlocks := map[*ssa.BasicBlock]bool{}
+	onlyBegin := map[string]bool{"Query/Begin": true}
+	if r.BeginMC != nil {
+		for _, ref := range *r.BeginMC.Referrers() {
+			c, ok := ref.(*ssa.Call)
+			if !ok {
+				continue
+			}
+			lab := ar.label(c.Block())
+			beginBlocks[c.Block()] = true
+			installBlocks[c.Block()] = true
+			a.check(subset(ar.set(c.Block()), onlyBegin), rule, nk("begin-site", lab), w.posOf(c),
+				"BEGIN opens a transaction", "a transaction is opened (buffer replaced, flag cleared) by an event that is not BEGIN")
 		}
-		lab := ar.label(c.Block())
-		a.check(subset(ar.set(c.Block()), map[string]bool{"Query/Begin": true}), rule, nk("begin-site", lab), w.posOf(c),
-			"BEGIN opens a transaction", "a transaction is opened (buffer replaced, flag cleared) by an event that is not BEGIN")
+	} else {
+		for _, s := range r.Auto.stores() {
+			if s.Fn != r.Parser {
+				continue
+			}
+			if b, isC := constBool(s.Store.Val); isC && !b {
+				lab := ar.label(s.Store.Block())
+				beginBlocks[s.Store.Block()] = true
+				a.check(subset(ar.set(s.Store.Block()), onlyBegin), rule, nk("begin-site", lab), w.posOf(s.Store),
+					"BEGIN opens a transaction", "a transaction is opened (flag cleared) by an event that is not BEGIN")
+			}
+		}
 	}
 	// buffer writes in the parser
 	appendBlocks := map[*ssa.BasicBlock]bool{}
@@ -298,6 +320,13 @@ func c02R3(a *A, r *Roles, ar *Arms) {
 				a.viol(rule, key, w.posOf(s.Store), "the transaction buffer is cleared in arm %q: buffered changes of an open transaction are lost", lab)
 			}
 		default:
+			_, isSl := s.Store.Val.(*ssa.Slice)
+			_, isMk := s.Store.Val.(*ssa.MakeSlice)
+			if r.BeginMC == nil && (isSl || isMk) && subset(as, onlyBegin) {
+				a.hold(rule, key, w.posOf(s.Store), "BEGIN installs a fresh buffer")
+				installBlocks[s.Store.Block()] = true
+				break
+			}
 			a.viol(rule, key, w.posOf(s.Store), "the transaction buffer is overwritten in arm %q with %s", lab, describe(s.Store.Val))
 		}
 	}
@@ -311,6 +340,9 @@ func c02R3(a *A, r *Roles, ar *Arms) {
 		}
 		lab := ar.label(s.Store.Block())
 		b, isC := constBool(s.Store.Val)
+		if r.BeginMC == nil && isC && !b && beginBlocks[s.Store.Block()] {
+			continue // the BEGIN arm marking the transaction open (judged as a begin site above)
+		}
 		a.check(lab == "init" && isC && b, rule, nk("flag-write", lab), w.posOf(s.Store), "flag initialised to 'no BEGIN open'",
 			"the open/closed flag is written by the dispatch loop outside begin/commit")
 	}
@@ -352,12 +384,6 @@ func c02R3(a *A, r *Roles, ar *Arms) {
 			commitBlocks[c.Block()] = true
 		}
 	}
-	beginBlocks := map[*ssa.BasicBlock]bool{}
-	for _, ref := range *r.BeginMC.Referrers() {
-		if c, ok := ref.(*ssa.Call); ok {
-			beginBlocks[c.Block()] = true
-		}
-	}
 	in := func(m map[*ssa.BasicBlock]bool) func(*ssa.BasicBlock) bool {
 		return func(b *ssa.BasicBlock) bool { return m[b] }
 	}
@@ -367,7 +393,11 @@ func c02R3(a *A, r *Roles, ar *Arms) {
 	}
 	req := func(arm, what string, entry *ssa.BasicBlock, stop func(*ssa.BasicBlock) bool, cut func(pred, b *ssa.BasicBlock, k int) bool, bad string) {
 		key := fmt.Sprintf("required@parser[arm=%s,%s]", arm, what)
-		escapes := reachesAvoidingP(entry, head, stop, cut)
+		ac := ar.armCut(arm)
+		both := func(pred, b *ssa.BasicBlock, k int) bool {
+			return ac(pred, b, k) || (cut != nil && cut(pred, b, k))
+		}
+		escapes := reachesAvoidingP(entry, head, stop, both)
 		if stop(entry) {
 			escapes = false
 		}
@@ -379,13 +409,16 @@ func c02R3(a *A, r *Roles, ar *Arms) {
 			req(p.Name, "commit", p.Entry, in(commitBlocks), nil, "a commit event can pass without delivering the transaction")
 		case p.Name == "Query/Begin":
 			req(p.Name, "begin", p.Entry, in(beginBlocks), nil, "BEGIN can pass without opening a transaction")
+			if r.BeginMC == nil {
+				req(p.Name, "begin-buffer", p.Entry, in(installBlocks), nil, "BEGIN can pass without installing a fresh buffer: the changes of the new transaction are appended to (or lost with) a stale one")
+			}
 		case p.Name == "Query/Rollback":
 			req(p.Name, "clear", p.Entry, in(clearBlocks), nil, "ROLLBACK can reach the commit without dropping the buffered changes: rolled-back changes are delivered")
 			req(p.Name, "commit", p.Entry, in(commitBlocks), nil, "ROLLBACK can pass without delivering the empty transaction that advances the position")
 			// order: the clear precedes the commit call
 			for cb := range commitBlocks {
 				if ar.of[cb]["Query/Rollback"] {
-					early := reachesAvoiding(p.Entry, cb, in(clearBlocks), nil) && !clearBlocks[p.Entry]
+					early := reachesAvoidingP(p.Entry, cb, in(clearBlocks), ar.armCut(p.Name)) && !clearBlocks[p.Entry]
 					a.check(!early, rule, "required@parser[arm=Query/Rollback,clear-before-commit]", w.posOf(cb.Instrs[0]),
 						"buffer cleared before the commit call on every path", "the ROLLBACK arm can reach its commit call with the buffer intact")
 				}
@@ -492,7 +525,10 @@ func c02R4(a *A, r *Roles) {
 		a.check(ok, rule, "delivered-buffer@commit", w.posOf(nt), "the handler receives the current buffer", "the delivered transaction is not built from the current buffer")
 		a.touch(nt.Common().StaticCallee())
 	}
-	// begin closure
+	// begin closure (when BEGIN is handled in its arm instead, R3 requires both effects on every path of the arm)
+	if r.Begin == nil {
+		return
+	}
 	okBuf, okFlag := false, false
 	for _, s := range r.Tran.stores() {
 		if s.Fn == r.Begin {
